@@ -24,8 +24,9 @@ package receiver
 
 //@ func (*receiver.Transfer).generateAndSendSums
 //@   requires 0 <= fileLen && fileLen <= 1099511627776
-//@   modifies rsyncwire.CountingWriter.BytesWritten, rsyncwire.CountingReader.BytesRead
-//@   loop 0: invariant remaining >= 0 && i >= 0
+//@   modifies rsyncwire.CountingWriter.BytesWritten, rsyncwire.CountingReader.BytesRead, ghost.int32sWritten
+//@   ensures ghost.int32sWritten >= old(ghost.int32sWritten)
+//@   loop 0: invariant remaining >= 0 && i >= 0 && ghost.int32sWritten >= old(ghost.int32sWritten)
 
 // ---------------------------------------------------------------- effects
 // C05: every file-system effect of a receiver method goes through
@@ -75,3 +76,21 @@ package receiver
 
 //@ func (*receiver.Transfer).setUid
 //@   requires[C10] [not-dry-run] !rt.Opts.DryRun
+
+// ---------------------------------------------------------------- C12: update rule
+//@ func receiver.modTimeEqual
+//@   pure
+//@   ensures [second-granularity] result <==> tsec(a) == tsec(b)
+
+//@ func (*receiver.Transfer).skipFile
+//@   modifies ghost.acc, ghost.objClock, rsyncwire.CountingReader.BytesRead, rsyncwire.CountingWriter.BytesWritten
+//@   ensures [decision] err == nil ==> (result <==> infoSize(data(st)) == f.Length && ite(rt.Opts.AlwaysChecksum, bytesIdOf(f.Checksum, 0, 16) == rootSum(rt.DestRoot, f.Name), !rt.Opts.IgnoreTimes && infoMSec(data(st)) == tsec(f.ModTime)))
+
+// requested <=> missing, or not a regular file, or size differs, or
+// (-c ? checksum differs : (-I or mtime differs at one-second granularity))
+//@ spec func mustRequest(exists: bool, isReg: bool, szEq: bool, tEq: bool, sumEq: bool, c: bool, ig: bool): bool = !exists || !isReg || !szEq || ite(c, !sumEq, ig || !tEq)
+//@ spec func destInfo(rt: *receiver.Transfer, f: *receiver.File): int = lstatInfo(rt.DestRoot, f.Name)
+
+//@ func (*receiver.Transfer).recvGenerator
+//@   modifies *, ghost.int32sWritten, ghost.acc, ghost.objClock
+//@   ensures[C12] [update-rule] err == nil && old(rt.Dest) != "" && 0 <= old(f.Mode) && mod(div(old(f.Mode), 4096), 16) == 8 ==> (ghost.int32sWritten > old(ghost.int32sWritten) <==> old(mustRequest(entryExists(rt.DestRoot, f.Name), modeIsRegular(infoMode(destInfo(rt, f))), infoSize(destInfo(rt, f)) == f.Length, infoMSec(destInfo(rt, f)) == tsec(f.ModTime), bytesIdOf(f.Checksum, 0, 16) == rootSum(rt.DestRoot, f.Name), rt.Opts.AlwaysChecksum, rt.Opts.IgnoreTimes)))
